@@ -591,9 +591,9 @@ func init() {
 		Flavour:     "inst-pass", QuickBudgetS: 300, ThoroughBudgetS: 1800,
 		Spaces: func(tier string) []*core.Space {
 			if tier == "thorough" {
-				return []*core.Space{c01ByteSpace(4), c01TokenSpace(3), c01PositionSpace(tier), c01HistorySpace(1), c01HistorySpace(2), c01HistorySpace(3), c01ConfigSpace(tier), c01ClassSpace(tier)}
+				return []*core.Space{c01ByteSpace(4), c01TokenSpace(3), c01PositionSpace(tier), c01HistorySpace(1), c01HistorySpace(2), c01HistorySpace(3), c01ConfigSpace(tier), c01ClassSpace(tier), c01TypedSpace(tier)}
 			}
-			return []*core.Space{c01ByteSpace(3), c01TokenSpace(2), c01PositionSpace(tier), c01HistorySpace(1), c01HistorySpace(2), c01ConfigSpace(tier), c01ClassSpace(tier)}
+			return []*core.Space{c01ByteSpace(3), c01TokenSpace(2), c01PositionSpace(tier), c01HistorySpace(1), c01HistorySpace(2), c01ConfigSpace(tier), c01ClassSpace(tier), c01TypedSpace(tier)}
 		},
 	})
 }
